@@ -40,6 +40,16 @@ class C08(AntsSpec):
         c = self.crashed(impl)
         if c:
             return c
+        if script.startswith("stress "):
+            f = dict(x.split("=") for x in impl.split()[1:] if "=" in x)
+            if not f:
+                return ("malformed", "unexpected stress output: " + impl[:200])
+            if int(f["over"]) > 0:
+                return ("too-many-concurrent-handlers", "real-scheduler stress: on %s of %s fresh pools of size %s more than N handlers "
+                        "ran at once (max %s) after %s senders were released from a barrier" % (f["over"], f["pools"], f["n"], f["max"], f["k"]))
+            if int(f["bad"]) > 0:
+                return ("stress-wrong-result", "real-scheduler stress: %s tasks did not return (1, nil)" % f["bad"])
+            return None
         sc = parse_script(script)
         po = parse_obs(impl)
         if po is None:
@@ -94,6 +104,8 @@ class C08(AntsSpec):
         return None
 
     def nontrivial(self, script, impl):
+        if script.startswith("stress "):
+            return True
         po = parse_obs(impl)
         if po is None:
             return False
